@@ -1,6 +1,6 @@
 (* C06 - case records and boolean checkers for the generated case files. *)
 From Coq Require Import String List Bool Arith ZArith QArith Qcanon.
-From AL Require Import Base.CaseLib C04.Model C04.Check C06.Model C06.Spec.
+From AL Require Import Base.CaseLib C04.Model C04.Check C06.Model C06.Spec C06.ProofsWf.
 Import ListNotations.
 
 Definition tterm_eqb (a b : tterm) : bool :=
@@ -56,7 +56,23 @@ Record tcase := TCase {
 Definition berr_name (e : berr) : string :=
   match e with BZeroDiv => "ZeroDivisionError" | BEmptyDen => "ValueError" end.
 
+(* the hypothesis of the loop theorems (C06.ProofsWf.wf_prog: tee copies consistent,
+   one clean round reads every source once) holds for the program and iterators
+   the model builds for this case *)
+Definition wf_case (c : tcase) : bool :=
+  match build coef_alg (c_expr c) 0 with
+  | BOk f h =>
+      match prepare h f with
+      | Ok (BOk f' _) => match tcodegen f' (c_zero c) with Ok (TGen p) => if tp_try p then wf_prog f' p   (* no Stream coefficient: property C04 *)
+                                                        else is_nil (tp_bargs p ++ tp_aargs p)
+                                         | _ => true end
+      | _ => true
+      end
+  | BErr _ => true
+  end.
+
 Definition corr_tv (c : tcase) : bool :=
+  wf_case c &&
   match run_case (sources_of (c_srcs c)) (c_expr c) (c_mem c) (c_zero c) (c_limit c), c_obs c with
   | RBuild e, OBuild n => String.eqb n (berr_name e)
   | RCall e, OCall n => String.eqb n (exn_name e)
@@ -64,4 +80,20 @@ Definition corr_tv (c : tcase) : bool :=
   | _, _ => false
   end.
 
-Definition holds_tv (c : tcase) : bool := true.
+(* the property on the implementation's observation: Spec only.  A refusal is
+   accepted only where the frozen filter is itself refused (the text is silent). *)
+Definition zero_gain (F : @gfilt scoef) : bool :=
+  let a0 := t_getitem frozen_alg (t_den F) 0 in
+  is_nil (sc_deps a0) && oq_eqb (sc_val a0) (Some 0%Qc).
+
+Definition holds_tv (c : tcase) : bool :=
+  let S := sources_of (c_srcs c) in
+  match c_obs c with
+  | ORun _ tr => spec_run S (c_expr c) (c_mem c) (c_zero c) (c_limit c) tr
+  | OBuild _ => match frozen_at S (c_expr c) 0 with BErr _ => true | BOk _ _ => false end
+  | OCall _ => match frozen_at S (c_expr c) 0 with
+               | BErr _ => false
+               | BOk F _ => noncausal F || zero_gain F
+               end
+  | OOther => false
+  end.
